@@ -73,6 +73,20 @@ def jobs(ctx, names=None, focus=(), record=True, snapshots=True):
             used_task={"draws": r.randint(1, 4), "runs": 1})
         add("reused-instance", nm, {"max_cycles": 3, "population_size": P0}, search.cont_task(obj="shifted", minmax=mm(), seed=sd()),
             sequence=[{"task": search.cont_task(obj="sphere", minmax=mm(), seed=sd(), dim=r.choice([2, 5]))}])
+        # (g) other objects used EARLIER IN THE SAME INTERPRETER (and kept alive): another instance of the class with one parameter / the population size slightly
+        #     different, another task of the same class with other bounds and another dimension - nothing of them may reach this run (class- or module-level state)
+        cfg0 = {"max_cycles": 3, "population_size": P0}
+        pre = []
+        ec1 = [c for c in validators.edge_configs(nm, sizes=(P0,)) if len(c) > 1]
+        if ec1: pre.append({"opt": nm, "cfg": {"fitness_error": None, **r.choice(ec1), "max_cycles": 2}, "task": search.cont_task(obj="sphere", seed=sd(), dim=3)})
+        pre.append({"opt": nm, "cfg": {"fitness_error": None, "max_cycles": 2, "population_size": P0 + r.choice([-3, -2, -1, 1, 2, 3])},
+                    "task": search.cont_task(obj="sphere", lo=5.0, hi=9.0, seed=sd(), dim=r.choice([2, 4]))})
+        r.shuffle(pre)
+        add("shared", nm, cfg0, search.cont_task(obj=r.choice(["sphere", "shifted"]), minmax=mm(), seed=sd(), dim=3), pre_jobs=pre)
+        # (h) a bi-level objective: two of its evaluations run another instance of the same class to completion (two runs of one class interleaved in one interpreter)
+        add("nested", nm, {"max_cycles": 5, "population_size": P0, "early_stopping": r.choice([None, {"patience": 2, "min_delta": 0.05}])},
+            search.cont_task(obj="sphere", minmax=mm(), seed=sd(), dim=2,
+                             nested={"opt": nm, "at": [2, P0 + 3, 2 * P0 + 5], "cfg": {"fitness_error": None, "max_cycles": 3, "population_size": P0}, "task": search.cont_task(obj="shifted", seed=sd(), dim=3)}))
     return out
 
 
@@ -104,6 +118,9 @@ def decide(ctx, obs, oracle: str, **kw):
         elif oracle == "history":
             from .props import c15
             probs = c15.history_problems(o)
+        elif oracle == "stop":
+            from .props import c04
+            probs = c04.stop_problems(o)
         elif oracle == "monotone":
             from .props import c17
             probs = c17.monotone_problems(o) if j["opt"] in kw["elitist"] else []
